@@ -12,7 +12,8 @@ def check(run):
                             # one session kept alive by a single client across its idle and absolute deadlines (store API: Get, Get again, Save)
                             ("Session_Hist_life.cfg", 9, "session_life")):
         n, s = generic.gen_replay(run, "Session", cfg, "TestC15", name, env={"VERIF_ABS": absv}, workers=1, heap="4g",
-                                  simulate="num=%d" % nh, depth=40, tag="HIST", dedupe=True)
+                                  simulate="num=%d" % nh, depth=40, tag="HIST", dedupe=True,
+                                  confirm_case=lambda v: {"hist": v["history"], "mode": v["mode"]})
         if s["histories"] != n:
             raise core.Inconclusive("driver did not consume every history")
         for k, v in s.items():
